@@ -46,6 +46,9 @@ type Solver struct {
 	Incr      bool
 	Slow      int
 	SlowTime  time.Duration
+	Retries   int  // queries asked a second time (fresh process, longer timeout) after an unknown answer
+	Retried   int  // ... of which the second attempt was conclusive
+	inRetry   bool
 }
 
 func NewSolver(ctx *Ctx, bin string, args ...string) (*Solver, error) {
@@ -294,6 +297,41 @@ func parseValue(txt string) uint64 {
 
 // CheckPC decides pc ∧ extra keeping the solver's assertion stack aligned with pc (incremental).
 func (s *Solver) CheckPC(pc []*Term, extra *Term, want []*Term) (Result, map[*Term]uint64) {
+	res, model := s.checkPC1(pc, extra, want)
+	if res != Unknown || s.inRetry || s.dead {
+		return res, model
+	}
+	// An unknown answer (solver timeout under load, watchdog, dead process) is asked once more: clean process,
+	// four times the timeout, the whole path condition in one non-incremental query. Only if that is unknown as
+	// well does the answer count as unknown.
+	s.inRetry = true
+	defer func() { s.inRetry = false }()
+	s.Retries++
+	u := s.Unknowns
+	old := s.TimeoutS
+	if old > 0 {
+		s.TimeoutS = 4 * old
+	}
+	s.restart()
+	as := append([]*Term(nil), pc...)
+	if extra != nil {
+		as = append(as, extra)
+	}
+	res, model = s.Check(as, want)
+	s.TimeoutS = old
+	if !s.dead {
+		s.restart() // back to the normal timeout with a clean assertion stack
+	}
+	if res != Unknown {
+		s.Retried++
+		s.Unknowns = u - 1
+	} else {
+		s.Unknowns = u
+	}
+	return res, model
+}
+
+func (s *Solver) checkPC1(pc []*Term, extra *Term, want []*Term) (Result, map[*Term]uint64) {
 	if !s.Incr {
 		as := append([]*Term(nil), pc...)
 		if extra != nil {
